@@ -573,3 +573,108 @@ def dep_graph(model: Model) -> Dict[str, set]:
         for _m, c in ci.defaults:
             add(cn, c)
     return g
+
+
+# --------------------------------------------------------------------------------------------------
+# reference tracking of the USER state through an operation history (C05, C02 oracles)
+# --------------------------------------------------------------------------------------------------
+
+
+class RefState:
+    """user values and choice picks as the documents describe them:
+    set -> user value (a member set to y becomes the pick of its choice); reset of an option -> no user value
+    (for a member / a choice: the whole choice forgets pick and member values); loading a file replaces (or, merged,
+    overrides) user values by the file's unmarked assignments, for a choice the LAST member assigned y is the pick."""
+
+    def __init__(self, model: Model):
+        self.m = model
+        self.user: Dict[str, str] = {}
+        self.picks: Dict[int, str] = {}
+
+    def copy(self) -> "RefState":
+        r = RefState(self.m)
+        r.user = dict(self.user)
+        r.picks = dict(self.picks)
+        return r
+
+    def apply(self, op: tuple) -> None:
+        k = op[0]
+        if k == "set":
+            self._set(op[1], op[2])
+        elif k == "unset":
+            self.user.pop(op[1], None)
+        elif k == "reset":
+            self.user.pop(op[1], None)
+            ci = self.m.syms[op[1]].choice
+            if ci is not None:
+                self._reset_choice(ci)
+        elif k == "resetc":
+            self._reset_choice(op[1])
+        elif k == "load":
+            self._load(op[1], op[2])
+        elif k in ("read", "readc", "readall", "snap"):
+            pass
+        else:
+            raise ValueError(op)
+
+    def _set(self, name: str, v: str) -> None:
+        self.user[name] = v
+        ci = self.m.syms[name].choice
+        if ci is not None and v == "y":
+            self.picks[ci] = name
+
+    def _reset_choice(self, ci: int) -> None:
+        self.picks.pop(ci, None)
+        for m in self.m.choices[ci].members:
+            self.user.pop(m, None)
+
+    def _load(self, text: str, replace: bool) -> None:
+        import re
+
+        assigned: List[Tuple[str, str]] = []
+        marked = False
+        for line in text.splitlines():
+            line = line.rstrip()
+            if line.strip() == "# default:":
+                marked = True
+                continue
+            m = re.match(r"CONFIG_([^=]+)=(.*)", line)
+            u = re.match(r"# CONFIG_([^ ]+) is not set", line)
+            if m:
+                name, val = m.group(1), m.group(2)
+            elif u:
+                name, val = u.group(1), "n"
+            else:
+                marked = False
+                continue
+            was_marked, marked = marked, False
+            if was_marked:
+                continue
+            si = self.m.syms.get(name)
+            if si is None or not si.defs:
+                continue
+            if si.type == "bool":
+                if not val.startswith(("y", "n")):
+                    continue
+                val = val[0]
+            elif si.type == "string":
+                mm = re.fullmatch(r'"((?:[^\\"]|\\.)*)"', val)
+                if not mm:
+                    continue
+                val = re.sub(r"\\(.)", r"\1", mm.group(1))
+            elif u:
+                continue
+            assigned.append((name, val))
+        if replace:
+            self.user = {}
+            self.picks = {}
+        for name, val in assigned:
+            if self.m.syms[name].choice is None:
+                self._set(name, val)
+        # choice members are applied after everything else, in file order: last y wins
+        for name, val in assigned:
+            if self.m.syms[name].choice is not None:
+                self._set(name, val)
+
+    def eval(self) -> Eval:
+        return Eval(self.m, self.user, self.picks)
